@@ -4,6 +4,8 @@ import (
 	"math"
 	"sync"
 	"time"
+
+	"github.com/internetarchive/Zeno/internal/pkg/verifhook"
 )
 
 const (
@@ -56,6 +58,7 @@ func (tb *tokenBucket) Wait() {
 		tb.refill()
 		if tb.tokens >= 1 {
 			tb.tokens--
+			verifhook.RL("release", tb, time.Time{}, tb.tokens, tb.refillRate, tb.idealRate, tb.capacity, tb.penaltyUntil, tb.failureCount, 0)
 			tb.mu.Unlock()
 			return
 		}
@@ -67,6 +70,7 @@ func (tb *tokenBucket) Wait() {
 // refill adds tokens to the bucket based on the time elapsed.
 func (tb *tokenBucket) refill() {
 	now := tb.nowFunc()
+	verifhook.RL("refill", tb, now, tb.tokens, tb.refillRate, tb.idealRate, tb.capacity, tb.penaltyUntil, tb.failureCount, 0)
 
 	// If we're in a penalty period, don't refill tokens.
 	if now.Before(tb.penaltyUntil) {
